@@ -57,7 +57,7 @@ class Unit:
     """one harness binary: source + defines + build configuration"""
 
     def __init__(self, name, src, defs=(), build='ndebug', flags=(), link=('ref',), shards=1, args=(), cxx=None,
-                 ldflags=(), extra_srcs=(), timeout=None, run_env=None, bisect=None, label=None, two_step=False):
+                 ldflags=(), extra_srcs=(), timeout=None, run_env=None, bisect=None, label=None, two_step=False, deps=()):
         self.name, self.src, self.defs, self.build = name, src, list(defs), build
         self.flags, self.link, self.shards, self.args = list(flags), list(link), shards, list(args)
         self.cxx = cxx or CXX
@@ -68,6 +68,7 @@ class Unit:
         # two_step: compile the harness with self.cxx and self.flags (e.g. clang++ -fsanitize=thread -c) but link with plain g++,
         # i.e. WITHOUT the sanitizer runtime (engine/sched/sched.cpp supplies the hooks)
         self.two_step = two_step
+        self.deps = list(deps)  # extra files whose content is part of the cache key (headers next to the harness)
         # bisect: list of (label, defs) — if this unit does not compile, each variant is compiled on its own so
         # that the entries that cannot be instantiated are named individually (and the others still run)
         self.bisect = bisect
@@ -85,6 +86,7 @@ class Unit:
     def key(self):
         srcs = [os.path.join(ROOT, self.src)] + [os.path.join(ROOT, s) for s in self.extra_srcs] + engine_headers()
         srcs += [os.path.join(ROOT, SHARED[n][0]) for n in self.link if n in SHARED]
+        srcs += [os.path.join(ROOT, d) for d in self.deps]
         h = hashlib.sha256()
         h.update(tree_hash().encode())
         h.update(files_hash(srcs).encode())
@@ -302,6 +304,9 @@ def run_property(prop, tier, seed, jobs, replay=None, units_filter=None, build_o
         for u in units:
             u.shards = 1
         extra = ['--replay', replay_obj['key']]
+        det = (replay_obj.get('cell') or {}).get('detail') or {}
+        if isinstance(det, dict) and det.get('schedule') is not None:
+            extra += ['--only', 'schedule=' + str(det['schedule'])]
     if units_filter:
         keep = units_filter.split(',')
         units = [u for u in units if any(k in u.name for k in keep)]
